@@ -261,3 +261,13 @@ Definition init_ok (c : config) (o : oracles) (wfail : nat -> bool) (script : li
 
 Definition announces (e : effect) : bool :=
   match e with ERegister _ _ | ENotify _ _ | EReturnPeer _ _ => true | _ => false end.
+
+(* ---- sessions: the handshakes a long-lived Service performs one after the other ------------------
+   handshake.Service keeps nothing between handshakes except its configuration (own request), so a
+   session is the list of its handshakes, each with the oracle answers of *that moment*. *)
+Record step := { s_dir : bool (* true = responder *); s_oracles : oracles; s_wfail : nat -> bool;
+                 s_script : list frame }.
+Definition run_step (c : config) (s : step) : run :=
+  if s_dir s then handle c (s_oracles s) (s_wfail s) (s_script s)
+  else handshake c (s_oracles s) (s_wfail s) (s_script s).
+Definition session (c : config) (steps : list step) : list run := map (run_step c) steps.
